@@ -139,6 +139,9 @@ def run(ctx):
     ctx.rule("R12", "density contraction of the integral derivatives is the derivative of the package's own energy functional at fixed density (RHF and UHF, exact identity on a padded symbolic batch)")
     from ..assembly import check_gradient_contraction
     check_gradient_contraction(ctx, "R12")
+    ctx.rule("R13", "the excitation energy differentiated for reverse-mode excited-state forces is the CIS / RPA energy of the reported amplitudes (shared with C16-R9)")
+    from ..assembly import check_cis_energy
+    check_cis_energy(ctx, "R13")
     _r9_dispersion(ctx, repo)
     _r10_rotation_derivative(ctx, repo)
     _r11_core_electron(ctx, repo)
